@@ -44,6 +44,39 @@ def anchors():
     return [iou.SpooledIOBase, iou.SpooledBytesIO, iou.SpooledStringIO, iou.MultiFileReader]
 
 
+_SCHED = []
+
+
+def straddle_schedule():
+    if _SCHED:
+        return _SCHED
+    units = ['\xe9', '\u20ac', '\U0001d11e', 'a\xe9', '\xe9\u20ac', 'ab\U0001d11e', '\u20aca', 'x\xe9\xe9', 'a\U0001d11e',
+             'abc\U0001d11e', 'ab\u20ac', '\U0001d11e\xe9']
+    combos = {}
+    for u in units:
+        ub = len(u.encode('utf-8'))
+        for k in (1, 2, 3):
+            cuts = set()
+            for m in range(1, k + 1):
+                b = 21333 * m
+                off = b % ub            # offset of the multiple inside one repetition of the unit
+                pos = 0
+                for ch in u:
+                    ln = len(ch.encode('utf-8'))
+                    if pos < off < pos + ln:
+                        cuts.add((ln, off - pos))
+                    pos += ln
+            combos[(u, k)] = cuts
+    covered, order = set(), []
+    rest = dict(combos)
+    while rest:
+        best = max(rest, key=lambda c: (len(rest[c] - covered), -c[1], -len(c[0])))
+        covered |= rest.pop(best)
+        order.append(best)
+    _SCHED.extend(order)
+    return _SCHED
+
+
 class SpoolCheck(object):
     def __init__(self, text):
         self.text = text
@@ -86,8 +119,16 @@ class SpoolCheck(object):
         points on either side of each such place (from the start, and as the position len()/getvalue() restore after
         an append), then reads and an appending write."""
         unit = r.choice(['\xe9', '\u20ac', '\U0001d11e', 'a\xe9', '\xe9\u20ac', 'ab\U0001d11e', '\u20aca', 'x\xe9\xe9'])
-        ub = len(unit.encode('utf-8'))
         k = r.choice([1, 1, 2, 3])
+        # (the draws above are kept for the stream's sake; the unit and the number of multiples come from a fixed
+        # schedule ordered so that every way a 2-, 3- or 4-byte character can lie across a multiple - cut after its
+        # first, second or third byte - is reached within the first few histories of every shard)
+        n_ = getattr(self, '_straddle_n', 0)
+        self._straddle_n = n_ + 1
+        sched = straddle_schedule()
+        shard, nshards = (ctx.shard, ctx.nshards) if ctx is not None else (0, 1)
+        unit, k = sched[(n_ * nshards + shard) % len(sched)]
+        ub = len(unit.encode('utf-8'))
         # content ending just before / on / just after the k-th multiple, in bytes
         n_units = (21333 * k) // ub + r.choice([0, 0, 1, 1, 2, 30])
         ops = [['write_rep', unit, n_units]]
